@@ -123,6 +123,7 @@ func (o c05DObs) bal(n int) sdkmath.Int {
 }
 
 type c05Obs struct {
+	mts  uint64 // the deprecated max_total_supply as stored (read by the generator / statistics only)
 	maxs sdkmath.Int
 	gov  bool
 	den  []c05DObs
@@ -142,8 +143,13 @@ func (e *c05Env) idOf(a sdk.AccAddress) int {
 }
 
 func (e *c05Env) observe(ctx sdk.Context, nd int) c05Obs {
-	p := e.app.MarkerKeeper.GetParams(ctx)
-	o := c05Obs{maxs: p.MaxSupply, gov: p.EnableGovernance, den: make([]c05DObs, nd)}
+	// the configured parameters as a client reads them back: the gRPC Params query
+	pr, err := e.app.MarkerKeeper.Params(ctx, &markertypes.QueryParamsRequest{})
+	if err != nil {
+		e.t.Fatalf("params query: %v", err)
+	}
+	p := pr.Params
+	o := c05Obs{maxs: p.MaxSupply, mts: p.MaxTotalSupply, gov: p.EnableGovernance, den: make([]c05DObs, nd)} //nolint:staticcheck
 	idx := map[string]int{}
 	for d := 0; d < nd; d++ {
 		idx[c05Denoms[d]] = d
@@ -638,13 +644,43 @@ func (g *c05Gen) opGovRemoveAdmin(d, auth, a int) c05Op {
 		desc: fmt.Sprintf("[%s] gov remove administrator %d authority=%d", c05Denoms[d], a, auth), msg: msg}
 }
 
-func (g *c05Gen) opSetParams(auth int, maxs sdkmath.Int, gv bool, o c05Obs) c05Op {
+// c05Mts draws a value for the DEPRECATED uint64 parameter max_total_supply relative to max_supply:
+// 0 (unset), equal, smaller, larger.  Nothing may depend on it: the limit is max_supply.
+func c05Mts(r *rand.Rand, maxs sdkmath.Int) uint64 {
+	m := uint64(1000)
+	if maxs.IsPositive() && maxs.IsUint64() {
+		m = maxs.Uint64()
+	} else if maxs.IsPositive() {
+		m = 1 << 62
+	}
+	switch r.Intn(8) {
+	case 0, 1:
+		return 0
+	case 2:
+		return m
+	case 3:
+		return m/2 + 1
+	case 4:
+		return m + 1
+	case 5:
+		return m + uint64(1+r.Intn(5000))
+	case 6:
+		if m < 1<<50 {
+			return m * 1000
+		}
+		return 1 << 63
+	default:
+		return 1 << 63
+	}
+}
+
+func (g *c05Gen) opSetParams(auth int, maxs sdkmath.Int, mts uint64, gv bool, o c05Obs) c05Op {
 	e := g.e
 	cur := e.app.MarkerKeeper.GetParams(e.base)
 	msg := &markertypes.MsgUpdateParamsRequest{Authority: e.addrs[auth].String(),
-		Params: markertypes.Params{MaxSupply: maxs, EnableGovernance: gv, UnrestrictedDenomRegex: cur.UnrestrictedDenomRegex}}
-	return c05Op{kind: "update-params", isGov: auth == 100, term: fmt.Sprintf("MSetParams %d%%N %s %s", auth, zInt(maxs), coqBool(gv)),
-		desc: fmt.Sprintf("update params max_supply=%s enable_governance=%v authority=%d (was %s)", maxs, gv, auth, o.maxs), msg: msg}
+		Params: markertypes.Params{MaxSupply: maxs, MaxTotalSupply: mts, EnableGovernance: gv, UnrestrictedDenomRegex: cur.UnrestrictedDenomRegex}} //nolint:staticcheck
+	return c05Op{kind: "update-params", isGov: auth == 100, term: fmt.Sprintf("MSetParams %d%%N %s %d %s", auth, zInt(maxs), mts, coqBool(gv)),
+		desc: fmt.Sprintf("update params max_supply=%s max_total_supply(deprecated)=%d enable_governance=%v authority=%d (was %s)", maxs, mts, gv, auth, o.maxs), msg: msg}
 }
 
 func (g *c05Gen) opAuthzGrant(granter, grantee int, limit map[int]sdkmath.Int, allow []int) c05Op {
@@ -898,7 +934,7 @@ func (g *c05Gen) worldOp(o c05Obs) (c05Op, bool) {
 		default:
 			m = sdkmath.NewIntFromBigInt(new(big.Int).Exp(big.NewInt(10), big.NewInt(20), nil))
 		}
-		return g.opSetParams(g.authority(), m, r.Intn(4) != 0, o), true
+		return g.opSetParams(g.authority(), m, c05Mts(r, m), r.Intn(4) != 0, o), true
 	case x < 45:
 		// authz grant from a holder of restricted coins to the administrator (or somebody else)
 		granter := g.user()
@@ -1002,6 +1038,14 @@ func (g *c05Gen) next(o c05Obs) c05Op {
 	dg := g.dg[d]
 	switch x.status {
 	case 1, 2: // proposed, finalized
+		if x.supply.GT(x.msupply) && r.Intn(100) < 35 {
+			// more coins exist already than the marker is configured for: the manager route refuses
+			// to activate; try the governance route (and the burn-down that would make it legal)
+			if r.Intn(4) == 0 {
+				return g.simple(d, "activate", g.mgr(d))
+			}
+			return g.opGovStatus(d, g.authority(), 3)
+		}
 		y := r.Intn(100)
 		switch {
 		case y < 34:
@@ -1270,10 +1314,25 @@ func c05Scripts(e *c05Env, w *CaseWriter, r *rand.Rand) {
 	c05Script(e, w, r, "governance re-activation of a floating marker ignores max supply", 2, 1000, []mkop{
 		addFinAct(0, 800, false, true, false, false, all),
 		func(g *c05Gen, o c05Obs) c05Op { return g.opBurn(0, 1, n(700)) },
-		func(g *c05Gen, o c05Obs) c05Op { return g.opSetParams(100, n(200), true, o) },
+		func(g *c05Gen, o c05Obs) c05Op { return g.opSetParams(100, n(200), 5000, true, o) },
 		func(g *c05Gen, o c05Obs) c05Op { return g.opMint(0, 1, n(101)) },
 		func(g *c05Gen, o c05Obs) c05Op { return g.opGovStatus(0, 100, 3) },
 		func(g *c05Gen, o c05Obs) c05Op { return g.opBeginBlock() },
+	})
+	// the deprecated max_total_supply never raises (or lowers) the limit: max_supply alone binds
+	c05Script(e, w, r, "deprecated max_total_supply does not move the limit", 2, 100000, []mkop{
+		func(g *c05Gen, o c05Obs) c05Op { return g.opSetParams(100, n(1000), 5000, true, o) },
+		addFinAct(0, 900, true, true, false, false, all),
+		addFinAct(1, 900, false, true, false, false, all),
+		func(g *c05Gen, o c05Obs) c05Op { return g.opMint(0, 1, n(101)) },
+		func(g *c05Gen, o c05Obs) c05Op { return g.opMint(0, 1, n(100)) },
+		func(g *c05Gen, o c05Obs) c05Op { return g.opMint(0, 1, n(1)) },
+		func(g *c05Gen, o c05Obs) c05Op { return g.opGovInc(1, 100, n(101), -1) },
+		func(g *c05Gen, o c05Obs) c05Op { return g.opGovInc(1, 100, n(100), 2) },
+		func(g *c05Gen, o c05Obs) c05Op { return g.opSetParams(100, n(1000), 10, true, o) },
+		func(g *c05Gen, o c05Obs) c05Op { return g.opBurn(0, 1, n(50)) },
+		func(g *c05Gen, o c05Obs) c05Op { return g.opMint(0, 1, n(50)) },
+		func(g *c05Gen, o c05Obs) c05Op { return g.opMint(0, 1, n(1)) },
 	})
 	// Example C05_witness (two markers, cross-holding, parameter change, authz, recall, delete, removal)
 	c05Script(e, w, r, "witness: two markers through to removal", 2, 1000, []mkop{
@@ -1284,7 +1343,7 @@ func c05Scripts(e *c05Env, w *CaseWriter, r *rand.Rand) {
 		func(g *c05Gen, o c05Obs) c05Op { return g.opMint(0, 1, n(10)) },
 		func(g *c05Gen, o c05Obs) c05Op { return g.opBurn(0, 1, n(5)) },
 		func(g *c05Gen, o c05Obs) c05Op { return g.opWithdraw(1, 1, c05Esc(0), n(25)) },
-		func(g *c05Gen, o c05Obs) c05Op { return g.opSetParams(100, n(50), true, o) },
+		func(g *c05Gen, o c05Obs) c05Op { return g.opSetParams(100, n(50), 100000, true, o) },
 		func(g *c05Gen, o c05Obs) c05Op { return g.opMint(0, 1, n(1)) },
 		func(g *c05Gen, o c05Obs) c05Op { return g.opBurn(0, 1, n(1)) },
 		func(g *c05Gen, o c05Obs) c05Op { return g.simple(0, "cancel", 1) },
@@ -1357,7 +1416,18 @@ func TestC05(t *testing.T) {
 			params.MaxSupply = sdkmath.NewInt(100000)
 		}
 		params.EnableGovernance = r.Intn(4) != 0
-		app.MarkerKeeper.SetParams(ctx, params)
+		params.MaxTotalSupply = c05Mts(r, params.MaxSupply) //nolint:staticcheck // the deprecated field, on purpose
+		if r.Intn(2) == 0 {
+			// the starting parameters come in the way genesis brings them: the real InitGenesis
+			gs := markertypes.DefaultGenesisState()
+			gs.Params = params
+			if err := try(func() error { app.MarkerKeeper.InitGenesis(ctx, gs); return nil }); err != nil {
+				t.Fatalf("marker InitGenesis: %v", err)
+			}
+			w.Count("histories_started_by_marker_init_genesis")
+		} else {
+			app.MarkerKeeper.SetParams(ctx, params)
+		}
 		g := &c05Gen{e: e, r: r, nd: nd, grants: map[[2]int]map[int]sdkmath.Int{}}
 		for d := 0; d < nd; d++ {
 			g.dg = append(g.dg, &c05DGen{manager: -1})
@@ -1437,6 +1507,16 @@ func TestC05(t *testing.T) {
 				}
 				if err == nil && op.kind == "cancel" && p.has && (p.status == 2 || p.status == 3) && c.status == 4 && p.status != c.status {
 					flags["histories_with_admin_cancel_of_finalized_or_active"] = true
+				}
+				if err == nil && p.has && p.status == 3 && c.supply.GT(p.supply) && (op.kind == "mint" || op.kind == "gov-supply-increase") {
+					switch {
+					case prev.mts == 0:
+						w.Count("accepted_mints_with_max_total_supply_unset")
+					case sdkmath.NewIntFromUint64(prev.mts).GT(prev.maxs):
+						w.Count("accepted_mints_with_max_total_supply_above_max_supply")
+					default:
+						w.Count("accepted_mints_with_max_total_supply_at_or_below_max_supply")
+					}
 				}
 				if err == nil && p.has && c.has && c.supply.GT(prev.maxs.SubRaw(3)) && c.supply.LTE(prev.maxs) && c.supply.GT(p.supply) && (op.kind == "mint" || op.kind == "gov-supply-increase") && p.status == 3 {
 					w.Count("mints_reaching_max_boundary")
